@@ -25,10 +25,38 @@ RULE = (
 INIT_LOG = []
 CLASS_NAMES = ["FlatA", "FlatB", "Top", "Mid", "Leaf", "Derived", "SVert", "EmptyReg", "NoBool", "Nester", "Resetter",
                "SelfResetter", "Backend", "Shadowy"]
-ARGS = [(), (1,), (2, 3), ("x",), (None,), ([1, 2],), (0,), (False,)]
+class ArrayLike:
+    """An argument object with numpy-style comparison: == answers element-wise, and the answer has no truth value."""
+
+    def __init__(self, *items):
+        self.items = items
+
+    def __eq__(self, other):
+        return ArrayLike(*[a == b for a, b in zip(self.items, getattr(other, "items", ()))])
+
+    def __ne__(self, other):
+        return ArrayLike(*[a != b for a, b in zip(self.items, getattr(other, "items", ()))])
+
+    __hash__ = None
+
+    def __bool__(self):
+        raise ValueError("The truth value of an array with more than one element is ambiguous")
+
+
+class Incomparable:
+    """An argument object that refuses to be compared at all."""
+
+    def __eq__(self, other):
+        raise TypeError("not comparable")
+
+    __hash__ = None
+
+
+ARGS = [(), (1,), (2, 3), ("x",), (None,), ([1, 2],), (0,), (False,), (ArrayLike(1, 2),), (ArrayLike(3, 4),), (Incomparable(),)]
 KWARGS = [{}, {"a": 1}, {"b": [1]}, {"a": None, "b": 2},
           # keyword names an implementation might use for its own parameters
-          {"key": "x"}, {"instances": 1, "factory": 2}, {"args": 1, "kwargs": 2}, {"name": "n", "obj": 0}]
+          {"key": "x"}, {"instances": 1, "factory": 2}, {"args": 1, "kwargs": 2}, {"name": "n", "obj": 0},
+          {"a": ArrayLike(1, 2)}, {"a": ArrayLike(5, 6)}, {"b": Incomparable()}]
 
 
 def make_classes():
